@@ -157,6 +157,11 @@ def run_shard(shard, ctx):
                 for order in ("fwd", "rev"):
                     run_case({"kind": "free", "pos": [pos], "ntables": nt, "order": order}, ctx)
         run_case({"kind": "free", "pos": [0, 1, 2, 3, 4], "ntables": 2, "order": "fwd"}, ctx)
+        # freed entries that kept their flag byte (file-object pointer 0x01, 0x02, both) and stale parent / key / pointer bytes
+        for fl in (1, 2, 3, 0x80):
+            for pos in (1, 3, 5):
+                for nt in (1, 2):
+                    run_case({"kind": "free", "pos": [pos], "ntables": nt, "order": "fwd", "free_flags": fl}, ctx)
     elif kind == "competing":
         for a, b in itertools.product(SEQS, SEQS):
             for which in (1, 2, 12):
@@ -268,7 +273,8 @@ def run_case(case, ctx):
         ctx.outcome("object-table-chain")
     elif kind == "free":
         tree = tree_from_shape(forests(5)[17], 1)
-        kw = dict(ntables=case["ntables"], table_order=case["order"], free_at=set(case["pos"]))
+        kw = dict(ntables=case["ntables"], table_order=case["order"], free_at=set(case["pos"]), free_flags=case.get("free_flags", 0),
+                  free_size=64 if case.get("free_flags") else 32)
         nontrivial = True
         ctx.outcome("free")
     elif kind == "competing":
